@@ -6,39 +6,55 @@ CLAIM = True
 MANIFEST_TEXT = ("Lean 4 theorems, for every lane count S, every scalar type and every interpretation of the operator symbols "
                  "(so also IEEE arithmetic): each operator / cmath function that loop.hh lists (one generated lemma per row of the "
                  "macro invocation lists, over the per-lane loop shapes the translator reads off the DUNE_SIMD_LOOP_* macro bodies), "
-                 "lane/cond/broadcast/mask reductions/nested lane numbering are lane-wise; and the LU-based determinant/solve/invert of "
-                 "densematrix.hh, written once over a SimdLike structure with per-lane pivoting, return in every lane what the same "
-                 "algorithm returns on that lane's matrix, including mixed singular/regular lanes (determinant) and 'throws iff some "
-                 "lane throws' (solve/invert). Each run re-translates loop.hh/interface.hh/standard.hh/defaults.hh/DESIGN.md, re-checks "
-                 "the proofs, and runs LoopSIMD<T,S> (S in 1,2,4,8, T in float,double,int,long,bool, nested) and FieldMatrix<LoopSIMD<double,S>,n,n> "
-                 "(n=1..6) against the scalar operation per lane by bit pattern and against the Lean model (bit-exact, Float = IEEE double).")
+                 "lane/cond/broadcast/mask reductions/nested lane numbering, and the defaults of defaults.hh (mask, maskOr/And, "
+                 "allTrue/anyFalse/allFalse through anyTrue, horizontal max/min, implCast) and Scalar/Rebind/lanes are lane-wise; the "
+                 "LU-based determinant/solve/invert, all matrix-vector kernels (rectangular), left/rightmultiply and the matrix and "
+                 "vector norms of densematrix.hh/densevector.hh, written once over a SimdLike structure with per-lane pivoting, return in "
+                 "every lane what the same algorithm returns on that lane's data, including mixed singular/regular lanes (determinant) "
+                 "and 'throws iff some lane throws' (solve/invert) - for LoopSIMD<.,S> and for SIMD-of-SIMD (both instances proved "
+                 "lawful). Each run re-translates loop.hh/interface.hh/standard.hh/defaults.hh/DESIGN.md, re-checks the proofs, and runs "
+                 "LoopSIMD<T,S> (S in 1,2,3,4,8, T in float,double,int,long,short,unsigned,bool,complex, nested, over-aligned), a minimal "
+                 "SIMD type living on the defaults, and FieldMatrix/FieldVector of LoopSIMD<double,S>, LoopSIMD<float,4> and "
+                 "LoopSIMD<LoopSIMD<double,2>,2> against the scalar operation per lane by bit pattern and against the Lean model "
+                 "(bit-exact, Float/Float32 = IEEE double/single).")
 MANIFEST_NOTE = ("Trusted: Lean kernel (+propext/Classical.choice/Quot.sound), tr_c09.py, fidelity of the hand-written dense-matrix "
-                 "model (differential runs only), Lean's Float/Float32 = IEEE binary64/32 for + - * / < == fabs, g++/libm/ASan/UBSan. "
+                 "model (differential runs only), Lean's Float/Float32 = IEEE binary64/32 for + - * / < == fabs sqrt, g++/libm/ASan/UBSan. "
                  "cmath functions are uninterpreted in the model (their table travels on the op line); NaN payload/sign is canonicalised; "
                  "for solve/invert the property is read as: the SIMD call throws FMatrixError iff the scalar call throws for some lane, "
-                 "otherwise all lanes agree bitwise. Three genuine defects found by this check were repaired in /repo (fixes/C09_*.patch = "
-                 "commits 4bc4257, 463b852, 1d9eacd); the model describes the repaired code. -O0 is used for the harness because "
-                 "~30 vector types x all operators + 24 matrix types take > 2 min to compile at -O1 with both sanitizers.")
-TECHNIQUE = "Lean 4 proof over translated loop shapes + SimdLike-generic LU model; translator for operator tables; differential correspondence with per-lane scalar oracle (bitwise)"
+                 "otherwise all lanes agree bitwise. The DUNE_FMatrix_WITH_CHECKING configuration and complex multiplication/division are not "
+                 "modelled. Three genuine defects found by this check were repaired in /repo (fixes/C09_*.patch = "
+                 "commits 4bc4257, 463b852, 1d9eacd); the model describes the repaired code. -O0 and a reduced UBSan set (without "
+                 "null/alignment/vptr/pointer-overflow/object-size) are used for the harness because ~45 vector types x all operators + "
+                 "~60 matrix/vector types take > 2 min to compile at -O1 with all sanitizers.")
+TECHNIQUE = "Lean 4 proof over translated loop shapes + SimdLike-generic LU/kernel model (loop and nested instances proved lawful); translator for operator tables, defaults.hh and type functions; differential correspondence with per-lane scalar oracle (bitwise)"
 TRANSLATORS = [tr_c09.translate]
 HARNESS = dict(
     sources=["cxx_c09.cc"],
     repo_sources=["dune/common/exceptions.cc", "dune/common/stdstreams.cc"],
-    flags=["-O0"],   # ~30 vector types x all operators + 24 matrix types: -O1 with both sanitizers needs > 2 min to compile
+    # -O0: ~45 vector types x all operators + ~60 matrix/vector types need > 2 min at -O1 with both sanitizers;
+    # the UBSan checks that cannot concern lane values (null, alignment, vptr, pointer-overflow, object-size) are left out
+    # for the same reason; signed overflow, shifts, division, bounds (std::array indexing), bool, float casts stay on, ASan stays on
+    flags=["-O0", "-fno-sanitize=null,alignment,vptr,pointer-overflow,object-size,nonnull-attribute,returns-nonnull-attribute"],
 )
-RULE = ("cases: operator/function x scalar type {f32,f64,i32,i64,bool} x shape {1,2,4,8,2x2,4x2,2x4} x form {vv,vs,sv} with lanes drawn "
-        "independently from boundary values (+-0, +-inf, NaN, denormals, extremes, INT_MIN/MAX) and random values; abstraction layer "
-        "(lane, lane assignment, cond, mask reductions with one deviating lane, broadcast, max/min, mask*, implCast, lanes); matrices "
-        "n=1..6, S in {1,2,4,8}, each lane an independent recipe (random, scaled permutation, zero column, duplicate/dependent rows, "
-        "ties, powers of two, zero) so lanes need different pivot rows and some are singular; distinct = distinct op lines; "
+RULE = ("cases: operator/function x scalar type {f32,f64,i32,i64,i16,u32,bool,complex} x shape {1,2,3,4,8,2x2,4x2,2x4} x form {vv,vs,sv} with "
+        "lanes drawn independently from boundary values (+-0, +-inf, NaN, denormals, extremes, INT_MIN/MAX, UINT_MAX) and random values; "
+        "abstraction layer (lane incl. rvalue, lane assignment, cond, mask reductions with one deviating lane, broadcast, max/min, mask*, "
+        "implCast, lanes/Scalar/Rebind), the same through a minimal SIMD type that only has the defaults of defaults.hh, over-aligned "
+        "LoopSIMD, shifts by a vector of another type; matrices n=1..6 over LoopSIMD<double,{1,2,3,4,8}>, LoopSIMD<float,4>, "
+        "LoopSIMD<LoopSIMD<double,2>,2>, each lane an independent recipe (random, scaled permutation, zero column, duplicate/dependent "
+        "rows, ties, powers of two, zero) so lanes need different pivot rows and some are singular; rectangular kernels "
+        "mv/mtv/umv/umtv/mmv/mmtv/usmv/usmtv, left/rightmultiply, matrix and vector norms, dot, axpy; distinct = distinct op lines; "
         "non-trivial = the per-lane scalar oracle compared a result")
 ASSUMPTIONS = [
-    "the loop shapes, operator lists and the scalar cond/reductions are regenerated from the source by tools/translators/tr_c09.py; the "
-    "dense-matrix model lean/DuneVerif/Model/C09LU.lean is hand-written, its fidelity rests on this differential run",
-    "Lean Float/Float32 arithmetic is IEEE binary64/binary32 (checked bit for bit against the C++ results in every run)",
-    "NaN payloads and signs are canonicalised on both sides; integer operands are restricted to defined behaviour (no overflow, "
-    "no division by zero, shift counts in range)",
+    "the loop shapes, operator lists, the scalar cond/reductions, the defaults of defaults.hh and Scalar/Rebind/LaneCount are regenerated "
+    "from the source by tools/translators/tr_c09.py; the dense-matrix model lean/DuneVerif/Model/C09LU.lean + C09X.lean is hand-written, "
+    "its fidelity rests on this differential run",
+    "Lean Float/Float32 arithmetic (+ - * / < == abs sqrt) is IEEE binary64/binary32 (checked bit for bit against the C++ results in every run); "
+    "the compiler does not contract a*b+c into fma (no -mfma / -ffast-math in the harness build)",
+    "NaN payloads and signs are canonicalised on both sides; integer operands are restricted to defined behaviour (no signed overflow, "
+    "no division by zero, shift counts in range); short is computed in int and wraps on conversion, unsigned wraps",
     "cmath functions are compared lane vs std:: call inside the harness; in the model they are uninterpreted (table on the op line)",
+    "not modelled: the DUNE_FMatrix_WITH_CHECKING configuration, complex multiplication/division, Vc-based SIMD types (vc.hh)",
 ]
 TRUSTED = ["g++/libstdc++/libm, ASan/UBSan", "translator tr_c09.py", "harness/cxx_c09.cc (per-lane scalar oracle) + Driver/C09.lean parsing/printing"]
 
